@@ -55,7 +55,9 @@ impl Strategy {
 }
 
 /// One deviation from the default scheduling rule: when thread `tid` made its `nth` scheduling
-/// call, thread `to` was chosen instead of the default.
+/// call, thread `to & 0xff` was chosen instead of the default (0xff = the default was chosen).
+/// The upper bits carry an injected thread stall that begins at that decision: bits 8..16 hold
+/// victim + 1 (0 = none) and bits 16..32 the number of steps it lasts.
 #[derive(Clone, Copy, Debug, PartialEq, Eq, PartialOrd, Ord, Hash)]
 pub struct Preempt {
     pub tid: u32,
@@ -75,6 +77,11 @@ pub struct Config {
     pub record_trace: bool,
     /// Seed handed to code-under-test RNGs (via the hook).
     pub code_rng_seed: u64,
+    /// Fault: per scheduling decision, the chance in a million that one runnable thread is
+    /// *stalled* (not scheduled although runnable, as if descheduled by the OS) for a random number
+    /// of steps. A stall is lifted early when nothing else can run. 0 = never. Stalls are recorded
+    /// inside the pre-emption list (see `Preempt::to`) and therefore replay exactly.
+    pub stall_ppm: u32,
 }
 
 impl Default for Config {
@@ -87,6 +94,7 @@ impl Default for Config {
             fairness: 200,
             record_trace: false,
             code_rng_seed: 0,
+            stall_ppm: 0,
         }
     }
 }
@@ -123,6 +131,8 @@ pub struct RunResult {
     pub trace: Vec<TraceEv>,
     /// Replay deviations that never applied (non-empty = replay diverged).
     pub unused_replay: Vec<Preempt>,
+    /// Thread stalls injected (fault kind `thread_stall`).
+    pub stalls: u64,
 }
 
 #[derive(Clone, Copy, PartialEq, Debug)]
@@ -169,6 +179,11 @@ struct State {
     os_handles: Vec<Option<std::thread::JoinHandle<()>>>,
     exiting: Vec<usize>,
     shutdown: bool,
+    /// active stall: (victim, first step at which it may run again)
+    stalled: Option<(usize, u64)>,
+    /// a stall that began at the current decision, to be recorded with it: (victim, duration)
+    stall_begun: Option<(usize, u64)>,
+    stalls_fired: u64,
 }
 
 pub struct Sim {
@@ -234,18 +249,69 @@ impl State {
     fn candidates(&self) -> Vec<usize> {
         let mut c: Vec<usize> = Vec::new();
         for (i, t) in self.threads.iter().enumerate() {
-            if t.status == Status::Runnable {
+            if t.status == Status::Runnable && !self.is_stalled(i) {
                 c.push(i);
             }
         }
         c
     }
 
+    fn is_stalled(&self, i: usize) -> bool {
+        matches!(self.stalled, Some((v, until)) if v == i && self.steps < until)
+    }
+
+    /// Stall encoding inside `Preempt::to`: bits 0..8 the chosen thread (0xFF = the default
+    /// choice), bits 8..16 victim + 1 (0 = no stall begins here), bits 16..32 the duration.
+    fn maybe_begin_stall(&mut self, cur: usize) {
+        self.stall_begun = None;
+        if matches!(self.stalled, Some((_, until)) if self.steps >= until) {
+            self.stalled = None;
+        }
+        let nth = self.threads[cur].calls;
+        if let Some(map) = self.replay_map.as_ref() {
+            if let Some(to) = map.get(&(cur as u32, nth)).copied() {
+                let victim1 = ((to >> 8) & 0xff) as usize;
+                if victim1 > 0 && victim1 - 1 < self.threads.len() {
+                    let d = (to >> 16) as u64;
+                    self.stalled = Some((victim1 - 1, self.steps + d));
+                    self.stall_begun = Some((victim1 - 1, d));
+                    self.stalls_fired += 1;
+                }
+            }
+            return;
+        }
+        if self.cfg.stall_ppm == 0 || self.stalled.is_some() || self.threads.len() > 200 {
+            return;
+        }
+        if self.rng.below(1_000_000) < self.cfg.stall_ppm as u64 {
+            let runnable: Vec<usize> = self.threads.iter().enumerate().filter(|(_, t)| matches!(t.status, Status::Runnable | Status::Yielded)).map(|(i, _)| i).collect();
+            if runnable.len() >= 2 {
+                let v = runnable[self.rng.below(runnable.len() as u64) as usize];
+                let scale = [8u64, 40, 300, 3000][self.rng.below(4) as usize];
+                let d = 3 + self.rng.below(scale);
+                self.stalled = Some((v, self.steps + d));
+                self.stall_begun = Some((v, d.min(65_535)));
+                self.stalls_fired += 1;
+            }
+        }
+    }
+
     /// Make time pass / un-yield until at least one thread is `Runnable`; false = nothing can run.
     fn ensure_candidates(&mut self) -> bool {
         loop {
-            if self.threads.iter().any(|t| t.status == Status::Runnable) {
+            if self.threads.iter().enumerate().any(|(i, t)| t.status == Status::Runnable && !self.is_stalled(i)) {
                 return true;
+            }
+            // A stall starves its victim of steps relative to threads that can run; it does not let
+            // simulated time pass (sleepers and timeouts do not overtake a runnable thread).
+            let any_yielded_free = self.threads.iter().enumerate().any(|(i, t)| t.status == Status::Yielded && !self.is_stalled(i));
+            if !any_yielded_free {
+                if let Some((v, _)) = self.stalled {
+                    if matches!(self.threads[v].status, Status::Runnable | Status::Yielded) {
+                        self.stalled = None;
+                        continue;
+                    }
+                }
             }
             // Next timer.
             let mut next: Option<u64> = None;
@@ -283,11 +349,22 @@ impl State {
                 continue;
             }
             if any_yielded {
+                // (a spinner waiting for a stalled thread spins again: that is the point of a stall;
+                // it ends by itself after its number of steps)
+                let stalled_yielded_only = self.threads.iter().enumerate().all(|(i, t)| t.status != Status::Yielded || self.is_stalled(i));
+                if stalled_yielded_only {
+                    self.stalled = None;
+                }
                 for t in self.threads.iter_mut() {
                     if t.status == Status::Yielded {
                         t.status = Status::Runnable;
                     }
                 }
+                continue;
+            }
+            // only the stalled thread could run: the stall is over
+            if self.stalled.is_some() {
+                self.stalled = None;
                 continue;
             }
             return false;
@@ -313,13 +390,25 @@ impl State {
         let nth = self.threads[cur].calls;
         let def = self.default_choice(cur, cands, forced_switch);
         if cands.len() == 1 {
+            if let Some((v, d)) = self.stall_begun.take() {
+                let bits = (((v as u32) + 1) << 8) | ((d as u32) << 16);
+                if let Some(map) = self.replay_map.as_mut() {
+                    map.remove(&(cur as u32, nth));
+                }
+                self.preemptions.push(Preempt { tid: cur as u32, nth, to: 0xff | bits });
+            }
             return cands[0];
         }
         let chosen = if let Some(map) = self.replay_map.as_mut() {
             match map.get(&(cur as u32, nth)).copied() {
-                Some(to) if cands.contains(&(to as usize)) => {
+                Some(to) if (to & 0xff) == 0xff && (to >> 8) != 0 => {
+                    // only a stall begins here; the choice is the default one
                     map.remove(&(cur as u32, nth));
-                    to as usize
+                    def
+                }
+                Some(to) if cands.contains(&((to & 0xff) as usize)) => {
+                    map.remove(&(cur as u32, nth));
+                    (to & 0xff) as usize
                 }
                 _ => def,
             }
@@ -364,8 +453,14 @@ impl State {
                 }
             }
         };
+        let stall_bits = match self.stall_begun.take() {
+            Some((v, d)) => (((v as u32) + 1) << 8) | ((d as u32) << 16),
+            None => 0,
+        };
         if chosen != def {
-            self.preemptions.push(Preempt { tid: cur as u32, nth, to: chosen as u32 });
+            self.preemptions.push(Preempt { tid: cur as u32, nth, to: (chosen as u32) | stall_bits });
+        } else if stall_bits != 0 {
+            self.preemptions.push(Preempt { tid: cur as u32, nth, to: 0xff | stall_bits });
         }
         chosen
     }
@@ -441,6 +536,7 @@ impl Sim {
                 }
             }
         }
+        st.maybe_begin_stall(me);
         if !st.ensure_candidates() {
             if st.live == 0 {
                 self.done.notify_all();
@@ -854,6 +950,9 @@ where
             os_handles: Vec::new(),
             exiting: Vec::new(),
             shutdown: false,
+            stalled: None,
+            stall_begun: None,
+            stalls_fired: 0,
         }),
         done: Condvar::new(),
     });
@@ -910,6 +1009,7 @@ where
         probes: std::mem::take(&mut st.probes),
         trace: std::mem::take(&mut st.trace),
         unused_replay: unused,
+        stalls: st.stalls_fired,
     }
 }
 
